@@ -40,15 +40,19 @@ type Sim struct {
 	// Place, if set, positions the datagram (e.g. at a guard page) and returns the slice handed to the parser.
 	Place func(d []byte) []byte
 
-	Queue     []Step
-	Sent      []SentMsg
-	NRecv     int // Receive calls
-	NDeliver  int // datagrams handed to the parser
-	NEmpty    int // Receive calls that found nothing queued (EAGAIN)
-	NClose    int
-	CloseErr  error
-	SendErr   error
-	Delivered [][]byte // copies of delivered datagrams (in order)
+	Queue    []Step
+	Sent     []SentMsg
+	NRecv    int // Receive calls
+	NDeliver int // datagrams handed to the parser
+	NEmpty   int // Receive calls that found nothing queued (EAGAIN)
+	NClose   int
+	CloseErr error
+	SendErr  error
+	// SendErrFn, when set, decides per Send call (counted from 0, refused ones included) whether the
+	// transport refuses it.
+	SendErrFn  func(nth int) error
+	NSendCalls int
+	Delivered  [][]byte // copies of delivered datagrams (in order)
 
 	buf   []byte
 	stamp byte
@@ -66,6 +70,12 @@ func (s *Sim) Send(msg syscall.NetlinkMessage) (uint32, error) {
 	defer s.mu.Unlock()
 	if s.SendErr != nil {
 		return 0, s.SendErr
+	}
+	s.NSendCalls++
+	if s.SendErrFn != nil {
+		if err := s.SendErrFn(s.NSendCalls - 1); err != nil {
+			return 0, err
+		}
 	}
 	if s.NextSeq == 0 && !s.AllowSeqZero {
 		// A request numbered 0 cannot be told apart from an unsolicited event (sequence 0);
